@@ -84,7 +84,15 @@ def _vary_forms(py: typing.Any, seed: int) -> typing.Optional[typing.Tuple[typin
             return ys
         if isinstance(x, bytes):
             changed[0] = True
+            if coin():
+                try:
+                    return x.decode("utf-8")  # a byte array also takes a str: its UTF-8 encoding is what is written
+                except UnicodeDecodeError:
+                    pass
             return bytearray(x) if coin() else list(x)
+        if isinstance(x, str) and coin():
+            changed[0] = True
+            return bytearray(x.encode("utf-8")) if coin() else x.encode("utf-8")  # a UTF-8 array also takes the encoded bytes
         return x
 
     out = go(py)
